@@ -492,15 +492,18 @@ func Run(c *vl.Ctx) {
 	catalogue(k)
 	dbg("catalogue")
 
-	doneLevel := -1
 	var executed, skippedSilent, skippedStore, skippedQuick int64
-	lo := 0
-	for n := 0; n < len(levelEnd); n++ {
-		hi := levelEnd[n]
-		if c.OverBudget() {
-			break
+	nLevels := len(levelEnd)
+	bounds := func(n int) (int, int) {
+		if n == 0 {
+			return 0, levelEnd[0]
 		}
-		// verdicts of this level
+		return levelEnd[n-1], levelEnd[n]
+	}
+	verdictsDone := make([]bool, nLevels)
+	runsDone := make([]bool, nLevels)
+	verdictLevel := func(n int) {
+		lo, hi := bounds(n)
 		type item struct{ pi, lo, hi int }
 		var items []item
 		for pi, p := range k.pairs {
@@ -523,8 +526,11 @@ func Run(c *vl.Ctx) {
 			}
 			k.verdictPack(items[i].pi, items[i].lo, items[i].hi)
 		})
-		dbg(fmt.Sprintf("verdicts of length %d", n))
-		// execution of the accepted sequences of this level
+		verdictsDone[n] = capped == 0
+		dbg(fmt.Sprintf("verdicts of level %d", n))
+	}
+	runLevel := func(n int) {
+		lo, hi := bounds(n)
 		type ref struct{ pi, si int32 }
 		var rcs []ref
 		for pi, p := range k.pairs {
@@ -552,6 +558,7 @@ func Run(c *vl.Ctx) {
 			}
 		}
 		npacks := (len(rcs) + packR - 1) / packR
+		var capped int32
 		vl.ParDo(npacks, 16, func(i int) {
 			if c.OverBudget() {
 				atomic.StoreInt32(&capped, 1)
@@ -568,11 +575,27 @@ func Run(c *vl.Ctx) {
 			k.runPack(pack)
 			atomic.AddInt64(&executed, int64(z-a))
 		})
-		dbg(fmt.Sprintf("runs of length %d (%d packs)", n, npacks))
-		if capped == 0 {
-			doneLevel = n
-		}
-		lo = hi
+		runsDone[n] = capped == 0 && verdictsDone[n]
+		dbg(fmt.Sprintf("runs of level %d (%d packs)", n, npacks))
+	}
+	// order of work, cheapest and simplest first: verdicts and executions level by level up
+	// to length 3, then the verdicts of the longer levels, then their executions
+	for n := 0; n < nLevels && n <= 3; n++ {
+		verdictLevel(n)
+		runLevel(n)
+	}
+	for n := 4; n < nLevels; n++ {
+		verdictLevel(n)
+	}
+	for n := 4; n < nLevels; n++ {
+		runLevel(n)
+	}
+	doneV, doneR := -1, -1
+	for n := 0; n < nLevels && verdictsDone[n]; n++ {
+		doneV = n
+	}
+	for n := 0; n < nLevels && runsDone[n]; n++ {
+		doneR = n
 	}
 
 	// control twins of the must-reject sequences
@@ -637,7 +660,7 @@ func Run(c *vl.Ctx) {
 		"packed programs are a filter: disagreements with the oracle are re-decided on single-sequence programs (at least the first four of every pack; the borrow checker works function by function)",
 		"two different constant indices of one array (a[0] / a[1]) may or may not be treated as overlapping: counted, not judged",
 		"a by-value parameter is a local of the function (its storage dies with the call)")
-	c.Finish(vl.Coverage{Evaluations: atomic.LoadInt64(&k.evals) + catalogueEvals, Exhaustive: doneLevel == len(levelEnd)-1,
+	c.Finish(vl.Coverage{Evaluations: atomic.LoadInt64(&k.evals) + catalogueEvals, Exhaustive: doneV == nLevels-1 && doneR == nLevels-1,
 		Rule:  fmt.Sprintf("all well-formed event sequences (15 event kinds: bind r1/r2 shared/mutable, read/write through, read/write the place, temporary &' to a callee, open/close block) of length <= %d x %d place pairs; oracle = loan model (live from bind to last use; &' loan vs any access, & loan vs write/&' borrow; overlap = path prefix); each must-reject sequence has its control twin in the same space; accepted sequences that print are run natively and compared with write-through semantics; plus the return/callee catalogue; distinct_nontrivial = sequences with at least one conflicting (event, loan) pair", maxLen, len(k.pairs)),
-		Bound: fmt.Sprintf("length<=%d%s (completed through level %d) pairs=%s", maxLen, map[bool]string{true: " plus 5 nested-block sequences of length 5", false: ""}[len(levelEnd) > maxLen+1], doneLevel, strings.Join(names, ",")+map[bool]string{true: " (at length 4: same-var,disjoint-fields,parent-child,elem-field)", false: ""}[quick && maxLen >= 4])})
+		Bound: fmt.Sprintf("length<=%d%s (verdicts completed through level %d, executions through level %d) pairs=%s", maxLen, map[bool]string{true: " plus 5 nested-block sequences of length 5 as level 5", false: ""}[len(levelEnd) > maxLen+1], doneV, doneR, strings.Join(names, ",")+map[bool]string{true: " (at length 4: same-var,disjoint-fields,parent-child,elem-field)", false: ""}[quick && maxLen >= 4])})
 }
